@@ -182,18 +182,18 @@ Theorem run_equiv : forall o sim_layered,
   o_dry_run o = false -> In (o_function o) ["forward"; "misfit"; "gradient"] ->
   filter is_compute (run o true sim_layered)
   = api_script (o_function o) (noise_opts o).
-Proof. exact (run_equiv_g key_translation). Qed.
+Proof. exact (run_equiv_g key_translation clean_mode). Qed.
 Print Assumptions run_equiv.
 
 Theorem dry_run_computes_nothing : forall o sim_layered,
   o_dry_run o = true -> filter is_compute (run o true sim_layered) = [].
-Proof. exact (dry_run_computes_nothing_g key_translation). Qed.
+Proof. exact (dry_run_computes_nothing_g key_translation clean_mode). Qed.
 Print Assumptions dry_run_computes_nothing.
 
 Theorem output_written_last : forall o sim_layered,
   exists pre, run o true sim_layered
               = pre ++ [CSaveOut (file_str o "output") (out_keys (o_function o))].
-Proof. exact (output_written_last_g key_translation). Qed.
+Proof. exact (output_written_last_g key_translation clean_mode). Qed.
 Print Assumptions output_written_last.
 
 (* Without `load` the Simulation is built from ALL parsed simulation options
@@ -203,15 +203,42 @@ Theorem new_sim_gets_all_options : forall o sim_layered,
   In (CNewSim (sim_opts key_translation o) (Z.ltb (o_verbosity o) 1)) (run o true sim_layered) /\
   forall op, In op (opt_dedup (o_opts o)) -> under "simulation_options" op = true ->
              In (translate_opt key_translation op) (sim_opts key_translation o).
-Proof. exact (new_sim_gets_all_options_g key_translation). Qed.
+Proof. exact (new_sim_gets_all_options_g key_translation clean_mode). Qed.
 Print Assumptions new_sim_gets_all_options.
 
 (* With `load` neither the survey nor the simulation options are used. *)
 Theorem load_ignores_config : forall o sim_layered f,
   file_of o "load" = Some f ->
   filter is_build (run o true sim_layered) = [] /\ In (CLoadSim f) (run o true sim_layered).
-Proof. exact (load_ignores_config_g key_translation). Qed.
+Proof. exact (load_ignores_config_g key_translation clean_mode). Qed.
 Print Assumptions load_ignores_config.
+
+(* --load/--cache + --clean: the loaded simulation is cleaned with the mode
+   run.py uses ([clean_mode], regenerated from run.py) and gets the new model
+   before anything is computed or read from it ... *)
+Theorem clean_branch_cleans_first : forall o sim_layered f,
+  file_of o "load" = Some f -> o_clean o = true ->
+  exists rest, run o true sim_layered
+               = [CLoadSim f; CClean clean_mode; CLoadModel (file_str o "model"); CSetModel] ++ rest
+               /\ filter is_compute rest = filter is_compute (compute_calls o).
+Proof. exact (clean_branch_g key_translation clean_mode). Qed.
+Print Assumptions clean_branch_cleans_first.
+
+(* ... and that mode of Simulation.clean ([clean_resets], regenerated from
+   emg3d/simulations.py) leaves NO result of the old model behind, whatever
+   the loaded simulation held: fields, synthetic data, residual, weights,
+   computed flag, misfit, gradient. *)
+Theorem clean_leaves_no_old_result : forall st n,
+  In n old_results -> ~ In n (apply_clean clean_resets clean_mode st).
+Proof. exact clean_leaves_no_old_result_P. Qed.
+Print Assumptions clean_leaves_no_old_result.
+
+Example clean_leaves_no_old_result_ex :
+  apply_clean clean_resets clean_mode
+              ["_dict_efield"; "data.observed"; "data.synthetic"; "_misfit"; "_gradient"]
+  = ["data.observed"].
+Proof. vm_compute. reflexivity. Qed.
+Print Assumptions clean_leaves_no_old_result_ex.
 
 Example run_equiv_ex :
   match parse (fun s => s)
